@@ -202,6 +202,19 @@ fn run01(ctx: &Ctx) {
         let v = check01(&mut runner.borrow_mut(), &mut case, if frozen { None } else { Some(&mut st) });
         (v, if want_case { case.to_json() } else { Value::Null })
     });
+    // loops whose head is instruction 0
+    let cases = ctx.share(ctx.tier.pick(6_400, 128_000));
+    ctx.shrink_iters.set(500);
+    ctx.search("loop0", "exec", cases, gen::loop_to_zero(), |c, want_case| {
+        let mut case = c.clone();
+        let mut st = ctx.stats();
+        let frozen = st.is_frozen() || want_case;
+        if !frozen {
+            st.class("loop-head-at-instruction-0");
+        }
+        let v = check01(&mut runner.borrow_mut(), &mut case, if frozen { None } else { Some(&mut st) });
+        (v, if want_case { case.to_json() } else { Value::Null })
+    });
     // accesses far into a packet of 32-160 KiB
     super::bigpkt::run(ctx, Engine::Interp, 4_800, 96_000);
     // every opcode x every register pair x boundary operands, one instruction per test
@@ -296,6 +309,18 @@ fn run_diff(ctx: &Ctx, engine: Engine, local_calls: bool, quick: u64, thorough: 
         let frozen = st.is_frozen() || want_case;
         if !frozen {
             st.class("long-program-stream");
+        }
+        let v = check_diff(&mut runner.borrow_mut(), &mut case, engine, if frozen { None } else { Some(&mut st) });
+        (v, if want_case { case.to_json() } else { Value::Null })
+    });
+    let cases = ctx.share(ctx.tier.pick(if engine == Engine::Jit { 6_400 } else { 3_200 }, 64_000));
+    ctx.shrink_iters.set(500);
+    ctx.search("loop0", "exec", cases, gen::loop_to_zero(), |c, want_case| {
+        let mut case = c.clone();
+        let mut st = ctx.stats();
+        let frozen = st.is_frozen() || want_case;
+        if !frozen {
+            st.class("loop-head-at-instruction-0");
         }
         let v = check_diff(&mut runner.borrow_mut(), &mut case, engine, if frozen { None } else { Some(&mut st) });
         (v, if want_case { case.to_json() } else { Value::Null })
